@@ -461,6 +461,45 @@ func checkSetHelper(p *Prog, r *Report, h *ssa.Function) {
 			good = true
 		}
 	}
+	if !good {
+		// or: every exit returns op == "=" or op == "!=" (the verdict at an
+		// exit for "=" is then by construction the negation of the one for "!=",
+		// and every other operator gets false)
+		all, n := true, 0
+		eachInstr(h, func(ins ssa.Instruction) {
+			ret, ok := ins.(*ssa.Return)
+			if !ok || len(ret.Results) != 1 {
+				return
+			}
+			n++
+			bo, ok := ret.Results[0].(*ssa.BinOp)
+			if !ok || bo.Op != token.EQL {
+				all = false
+				return
+			}
+			// an exit taken because something differed answers "!=", the others "="
+			differs := false
+			for _, ef := range expandFacts(factsAt(ret.Block())) {
+				if b2, ok := ef.Cond.(*ssa.BinOp); ok && ((b2.Op == token.NEQ && ef.Truth) || (b2.Op == token.EQL && !ef.Truth)) {
+					if b2.X != ssa.Value(h.Params[0]) && b2.Y != ssa.Value(h.Params[0]) {
+						differs = true
+					}
+				}
+			}
+			okSide := false
+			for _, pr := range [][2]ssa.Value{{bo.X, bo.Y}, {bo.Y, bo.X}} {
+				if pr[0] == ssa.Value(h.Params[0]) {
+					if s, ok := constString(pr[1]); ok && ((s == "!=" && differs) || (s == "=" && !differs)) {
+						okSide = true
+					}
+				}
+			}
+			if !okSide {
+				all = false
+			}
+		})
+		good = all && n >= 2
+	}
 	r.decide(good, "C10.op-table", funcName(h)+":=/!= complementary", p.pos(h.Pos()), "'!=' returns the negation of the value '=' returns",
 		"for to-many sets '=' and '!=' are not complementary (the value returned for '!=' is not the negation of the one returned for '=')")
 }
